@@ -326,7 +326,6 @@ Proof.
   { rewrite app_assoc. replace n with (length (w ++ t)) by (rewrite app_length; lia). apply firstn_app_len. }
   rewrite F. destruct Hc as [->|(Hc & t' & rest & -> & Nt' & He & Hr)].
   - rewrite app_nil_r. split; [now apply trim_utf8|]. cbn in Hl. repeat split; try assumption; try lia.
-    left. lia.
   - split; [now apply trim_cut|]. pose proof (wf_enc_len _ He) as Le. rewrite app_length in Le.
     assert (length t <> 0)%nat by (destruct Hc as [Hc _]; destruct t; [congruence|cbn; lia]).
     assert (length t' <> 0)%nat by (destruct t'; [congruence|cbn; lia]).
